@@ -3,7 +3,7 @@ import itertools
 import z3
 
 from . import symx
-from .symx import Explorer
+from .symx import sym_and, Explorer
 
 
 def _ops_diff():
@@ -119,6 +119,18 @@ def _paths():
     ex = Explorer().explore(h7)
     if not (ex.exhausted and not ex.violations and ex.checks_reached == 0):
         bad.append(('h7', ex.stats()))
+
+    def h8(sx):  # define(): a fresh integer tied to a real by "nearest integer" (no feasibility query); a true and a false consequence
+        from fractions import Fraction
+        t = sx.real('t', -3, 3)
+        r = sx.int('r', -4, 4)
+        sx.define(sym_and(2 * t >= 2 * r - 1, 2 * t <= 2 * r + 1))
+        sx.check(sym_and(r >= -3, r <= 3), 'nearest-integer-in-range')
+        sx.check(r * 2 <= 2 * t, 'nearest-integer-is-not-the-floor')   # must be refuted (t = 0.4, r = 0 ... or t = -0.4)
+
+    ex = Explorer().explore(h8)
+    if not (len(ex.violations) == 1 and ex.violations[0].label == 'nearest-integer-is-not-the-floor'):
+        bad.append(('h8', ex.stats()))
     return bad
 
 
